@@ -163,6 +163,33 @@ func c04Run(c *Ctx) {
 			both(&Case{Gen: "non-callable", Src: Lines(Var("o", "{k: 1}"), Var("a", "[7]"), Print(`"start"`), Print(callee+"("+args+")"), Print(`"end"`))})
 		}
 	}
+	// a parameter may carry the function's own name: it is a parameter like any other (accessor / setter style)
+	for _, src := range []string{
+		Lines(Fun("val", "val", " "+Ret("val")+" "), Fun("sq", "sq", " "+Ret("sq * sq")+" "), Print("val(7)"), Print(`val("k")`), Print("sq(6)"), Print("val(nil)"), Print("val(val)")),
+		Lines(Fun("scale", "k, scale", " "+Ret("k * scale")+" "), Fun("pick", "pick, other", " "+If("pick", "{ "+Ret("other")+" }")+" "+Ret("nil")+" "), Print("scale(3, 5)"), Print("pick("+False()+", 1)"), Print("pick(1, 2)"), Print("scale(2)")),
+		Lines(Fun("cell", "", " "+Var("v", "0")+" "+Fun("set", "set", " v = set; "+Ret("v")+" ")+" "+Fun("get", "", " "+Ret("v")+" ")+" "+Ret("{set: set, get: get}")+" "), Var("a", "cell()"), Var("b", "cell()"), "a.set(41);", "b.set(a.get() + 1);", Print("a.get()"), Print("b.get()")),
+		Lines(Fun("apply", "v, apply", " "+Ret("apply(v)")+" "), Fun("inc", "n", " "+Ret("n + 1")+" "), Print("apply(1, inc)"), Print("apply(5, inc)"), Fun("cnt", "cnt", " "+If("cnt <= 0", "{ "+Ret("0")+" }")+" "+Ret("cnt - 1")+" "), Print("cnt(3)"), Print("cnt(0)")),
+	} {
+		both(&Case{Gen: "parameter-named-like-function", Src: src})
+	}
+	// every built-in called with every argument count 0..4 (numbers, then an array first): the count is checked like a user function's
+	for _, nick := range []string{"len", "append", "remove", "delete", "keys", "values", "abs", "sqrt", "pow", "sin", "cos", "tan", "min", "max", "round"} {
+		for na := 0; na <= 4; na++ {
+			for _, first := range []string{"1", "[1, 2]", "{k: 1}"} {
+				args := []string{}
+				for i := 0; i < na; i++ {
+					if i == 0 {
+						args = append(args, first)
+					} else if nick == "delete" && i == 1 {
+						args = append(args, `"k"`)
+					} else {
+						args = append(args, fmt.Sprint(i))
+					}
+				}
+				both(&Case{Gen: "builtin-arity", Src: Lines(Print(`"start"`), Var("r", BI(nick, args...)), Print("r"), Fun("via", "f", " "+Ret(Call("f", args...))+" "), Print("via("+B[nick]+")"), Print(`"end"`)), X: map[string]string{"nick": nick, "args": fmt.Sprint(na)}})
+			}
+		}
+	}
 	// arguments that are themselves calls, evaluated left to right, bound by position
 	both(&Case{Gen: "binding-nested", Src: Lines(Fun("g", "t", " "+Print(`"g" + t`)+" "+Ret("t * 10")+" "), Fun("f", "p, q, r", " "+Print(`"f " + p + " " + q + " " + r`)+" "+Ret("p - q - r")+" "), Print("f(g(1), g(2), g(3))"), Print("f(g(4), f(g(5), 0, 0), g(6))"))})
 	// 3. fresh activations
@@ -397,7 +424,7 @@ func init() {
 		Run:         c04Run,
 		Judge:       c04Judge,
 		MustCount: func(c *Ctx) []string {
-			out := []string{"return_inside_while", "return_inside_for", "programs_with_3plus_closures", "recursion_depth_100plus", "fault:Arity", "fault:NotCallable", "gen:closure-interleavings", "gen:function-name-rebinding", "gen:repl-after-call-errors", "gen:long-call-histories", "cli_runs"}
+			out := []string{"return_inside_while", "return_inside_for", "programs_with_3plus_closures", "recursion_depth_100plus", "fault:Arity", "fault:NotCallable", "gen:closure-interleavings", "gen:function-name-rebinding", "gen:repl-after-call-errors", "gen:long-call-histories", "gen:builtin-arity", "gen:parameter-named-like-function", "cli_runs"}
 			return out
 		},
 	})
